@@ -9,6 +9,7 @@
   fake by the correspondence stream only (DESIGN.md, trusted base).
 -/
 import Orbiter.Lemmas.Recv
+import Orbiter.Step
 namespace Orbiter.C07
 open Orbiter
 
@@ -100,6 +101,71 @@ theorem c07_entry_checks_change_nothing (wr : Wiring) (φ : Faults) (o : OrbStat
   · by_cases h1 : crossChainValid PROTOCOL_IBC pkt.dstChan = true
     · simp [h1, h, Ack.isSuccess]
     · simp [h1, Ack.isSuccess]
+
+/-! ### histories
+The chain without the middleware, as a machine over the same operations: receives go to the wrapped
+application alone, everything else (governance messages, deposits, environment changes, genesis round
+trips) is the same. -/
+
+/-- ibc-go core `RecvPacket` over the stack without the middleware. -/
+def bareRecv (wr : Wiring) (w : World) (pkt : Packet) : RecvOut :=
+  let out := bareOnRecv wr w.orb (ctxOf w) pkt
+  if out.ack.isSuccess then out else { ack := out.ack, ctx := ctxOf w, orb := w.orb }
+
+def stepBare (wr : Wiring) (φ : Faults) (w : World) : Op → Obs × World
+  | .recv pkt =>
+    let out := bareRecv wr w pkt
+    (.recv out.ack out.ctx.moves out.ctx.reqs out.ctx.events out.ctx.calls, out.world)
+  | op => step wr φ w op
+
+/-- A packet of foreign traffic on channels as ibc-go core assigns them. -/
+def Foreign (wr : Wiring) (pkt : Packet) : Prop :=
+  crossChainValid PROTOCOL_IBC pkt.dstChan = true ∧ (pkt.srcPort == "" || pkt.srcChan == "") = false ∧ ¬ orbiterAddressed wr.cfg pkt
+
+/-- Histories, keeping what each operation let the outside observe. -/
+def runObs (f : World → Op → Obs × World) (w : World) : List Op → List Obs × World
+  | [] => ([], w)
+  | op :: ops => let r := f w op; let rest := runObs f r.2 ops; (r.1 :: rest.1, rest.2)
+
+theorem c07_step (wr : Wiring) (φ : Faults) (w : World) (op : Op) (h : ∀ pkt, op = .recv pkt → Foreign wr pkt) :
+    step wr φ w op = stepBare wr φ w op := by
+  cases op with
+  | recv pkt =>
+    obtain ⟨h1, h2, h3⟩ := h pkt rfl
+    simp only [step, stepBare, bareRecv, c07_committed wr φ w pkt h1 h2 h3]
+  | _ => rfl
+
+/-- **Transparency over histories.** Any history of operations — governance messages in any order (so every
+pause and parameter state), deposits, environment changes, genesis round trips, and received packets none
+of which is an orbiter transfer — leaves the chain with the middleware and the chain without it in the
+same world, having shown the same acknowledgements, coin movements, events, external calls and bridge
+requests at every step. -/
+theorem c07_history (wr : Wiring) (φ : Faults) (ops : List Op) (w : World)
+    (h : ∀ pkt, Op.recv pkt ∈ ops → Foreign wr pkt) :
+    runObs (step wr φ) w ops = runObs (stepBare wr φ) w ops := by
+  induction ops generalizing w with
+  | nil => rfl
+  | cons op ops ih =>
+    simp only [runObs]
+    rw [c07_step wr φ w op (fun pkt e => h pkt (by rw [e]; exact List.mem_cons_self))]
+    rw [ih _ (fun pkt hm => h pkt (List.mem_cons_of_mem _ hm))]
+
+/-- …and the module's own state after a history made of foreign packets only is the one before it. -/
+theorem c07_history_own_state (wr : Wiring) (φ : Faults) (pkts : List Packet) (w : World)
+    (h : ∀ pkt ∈ pkts, Foreign wr pkt) :
+    (runObs (step wr φ) w (pkts.map Op.recv)).2.orb = w.orb := by
+  induction pkts generalizing w with
+  | nil => rfl
+  | cons pkt pkts ih =>
+    simp only [List.map_cons, runObs]
+    rw [ih _ (fun p hp => h p (List.mem_cons_of_mem _ hp))]
+    obtain ⟨h1, h2, h3⟩ := h pkt List.mem_cons_self
+    simp only [step, RecvOut.world]
+    unfold ibcRecv
+    simp only
+    split
+    · exact c07_own_state_untouched wr φ w.orb (ctxOf w) pkt h1 h2 h3
+    · rfl
 
 /-! ### non-vacuity: the channel hypothesis holds for the identifiers ibc-go assigns -/
 example : crossChainValid PROTOCOL_IBC "channel-0" = true ∧ crossChainValid PROTOCOL_IBC "channel-18446744073709551615" = true := by
